@@ -323,6 +323,31 @@ def contradictory(known):
 Evaluator.DOMAIN = tuple(closure([T.raw_op('VALID_SK', K_VALID)]))
 
 
+def spurious_refusals(ev, v, valid_facts):
+    """Raising exits that valid input can reach: a raise leaf is harmless when, under the validity facts, one of the
+    conditions on its path is decided false (the path needs invalid input).  Returns [(exception, undecided
+    conditions)] for the others."""
+    from ..evalr import Frame
+    out = []
+    for cs, leaf in raise_leaves(v):
+        known = set(closure(valid_facts))
+        fr = Frame(None, {}, Facts(known), None, None, 0)
+        infeasible = False
+        open_ = []
+        for c in cs:
+            d = ev.decide(c, fr)
+            if d == T.FALSE:
+                infeasible = True
+                break
+            if d != T.TRUE:
+                open_.append(c)
+            known |= set(_split(c))
+            fr.facts = Facts(closure(known))
+        if not infeasible:
+            out.append((leaf[1], open_))
+    return out
+
+
 def known_at(facts, conds):
     return closure(list(facts) + list(conds))
 
@@ -377,6 +402,13 @@ def same_term(ob, found, expected, what, where=None, vocab=None):
             return False
     if found == expected:
         return ob.require(True, what, where)
+    _ovf = lambda t_: t_ is not None and T.contains(t_, lambda x: T.tag(x) == 'raise' and x[1] == 'OverflowError')
+    if _ovf(found) or _ovf(expected):
+        from ..evalr import absorb_ser_guards
+        found = absorb_ser_guards(found) if found is not None else None
+        expected = absorb_ser_guards(expected) if expected is not None else None
+        if found == expected:
+            return ob.require(True, what, where)
     if found is not None and expected is not None and (T.phi_conditions(found) or T.phi_conditions(expected)):
         hf, he = T.hoist(found), T.hoist(expected)
         if hf == he:
